@@ -1389,7 +1389,19 @@ func (z *Decimal) Sub(x, y *Decimal) *Decimal {
 
 	// ±0 - y
 	// x - ±Inf
-	return z.Neg(y)
+	// The sign must be set before rounding: z.Neg(y) would round y with
+	// its own sign and only then negate the result.
+	neg := !y.neg
+	if z != y {
+		z.form = y.form
+		if y.form == finite {
+			z.exp = y.exp
+			z.mant = z.mant.set(y.mant)
+		}
+	}
+	z.neg = neg
+	z.round(0)
+	return z
 }
 
 // Uint64 returns the unsigned integer resulting from truncating x
